@@ -1,8 +1,9 @@
 /-
-  Cache invariant of the write-through revisions (the unchanged code and fix 1): as long as
+  REGRESSION MODEL (the write-through cache of the code before 6f25651, `Variant.invalidate =
+  false`): its cache invariant.  As long as
   (a) no change of a key is decided while a lookup of that key sits between its fetch and its
   cache.set, or while another change of that key still owes the cache its step, and (b) the entry
-  that CreateAccount builds equals the account (`entryOf v a = a`: uid = gid = 0, or fix 1),
+  that CreateAccount builds equals the account (`entryOf v a = a`: uid = gid = 0, or `copyIds`),
   the cache agrees with the store on every key that nobody is changing.  (`QuietAt` is that side
   condition; Open/C17.lean shows that each part of it is needed.)
 -/
